@@ -8,7 +8,9 @@ import (
 	"path/filepath"
 	"runtime/pprof"
 	"sort"
+	"strconv"
 	"strings"
+	"syscall"
 	"time"
 
 	"github.com/apache/skywalking-banyandb/banyand/internal/storage"
@@ -174,6 +176,7 @@ func (s scenario) String() string { return s.Init + ":" + strings.Join(s.Roles, 
 var base string
 
 func setup(sc scenario, seq *int) sched.Harness {
+	aborted := false
 	*seq++
 	dir := filepath.Join(base, fmt.Sprintf("x%d", *seq))
 	w := &world{dir: dir, holders: map[string]int{}, viol: map[string]bool{}}
@@ -223,6 +226,7 @@ func setup(sc scenario, seq *int) sched.Harness {
 	return sched.Harness{
 		Threads: threads,
 		Check: func(res *sched.Result) []string {
+			aborted = res.Abort != ""
 			if res.Abort == "" {
 				w.final()
 			}
@@ -246,7 +250,30 @@ func setup(sc scenario, seq *int) sched.Harness {
 				}()
 			}
 			_ = os.RemoveAll(dir)
+			if aborted {
+				closeLeakedFDs(dir)
+			}
 		},
+	}
+}
+
+// closeLeakedFDs closes descriptors that still point into an execution's (already removed) scratch directory. Only
+// executions that were aborted by a panic / deadlock inside the code under test leave such descriptors behind (the
+// unwound threads never reach their own cleanup); without this a long exploration of a scenario with a known panic
+// exhausts the descriptor limit.
+func closeLeakedFDs(dir string) {
+	ents, err := os.ReadDir("/proc/self/fd")
+	if err != nil {
+		return
+	}
+	for _, e := range ents {
+		fd, convErr := strconv.Atoi(e.Name())
+		if convErr != nil || fd < 3 {
+			continue
+		}
+		if target, linkErr := os.Readlink("/proc/self/fd/" + e.Name()); linkErr == nil && strings.HasPrefix(target, dir) {
+			_ = syscall.Close(fd)
+		}
 	}
 }
 
@@ -489,6 +516,23 @@ func main() {
 			}
 			r := runScenario(sc, sc.Bound, deadline)
 			r.Bound = sc.Bound
+			if os.Getenv("VERIF_FDDEBUG") != "" {
+				ents, _ := os.ReadDir("/proc/self/fd")
+				fmt.Fprintf(os.Stderr, "fd-debug %s executions=%d open_fds=%d\n", sc, r.Executions, len(ents))
+				kinds := map[string]int{}
+				for _, e := range ents {
+					t, _ := os.Readlink("/proc/self/fd/" + e.Name())
+					if i := strings.Index(t, "/x"); i > 0 && strings.HasPrefix(t, "/dev/shm/") {
+						t = "/dev/shm/<exec>" + t[strings.Index(t[i+1:], "/")+i+1:]
+					}
+					kinds[t]++
+				}
+				for k, n := range kinds {
+					if n > 2 {
+						fmt.Fprintf(os.Stderr, "fd-debug   %4d %s\n", n, k)
+					}
+				}
+			}
 			b, _ := json.Marshal(r)
 			par.Emit(b)
 		}
